@@ -12,6 +12,7 @@ mod border;
 mod snapshot;
 mod vtxrec;
 mod audio;
+mod ay;
 
 fn main() {
     let mut it = std::env::args().skip(1);
@@ -48,6 +49,7 @@ fn main() {
         "snapshot" => snapshot::run(&args),
         "vtx" => vtxrec::run(&args),
         "audio" => audio::run(&args),
+        "ay" => ay::run(&args),
         "portsdbg" => ports::debug(),
         _ => {
             eprintln!("unknown sub-command {cmd:?}");
